@@ -1565,6 +1565,13 @@ header_common(struct archive_read *a, struct tar *tar,
 		archive_entry_set_filetype(entry, AE_IFREG);
 		break;
 	}
+	/*
+	 * If the size field was ignored above (links, devices,
+	 * directories), the end offset reported with the entry's
+	 * end-of-data must not claim a body either.
+	 */
+	if (archive_entry_size(entry) == 0)
+		tar->disk_size = 0;
 	return (err);
 }
 
